@@ -366,6 +366,8 @@ def main(argv=None):
 
     # ---- shrink unknown buckets ------------------------------------------
     os.makedirs(os.path.join(HERE, 'evidence'), exist_ok=True)
+    for old in glob.glob(os.path.join(HERE, 'evidence', 'replay_%s_*.json' % prop)):
+        os.remove(old)
     bucket_report = {}
     if total.buckets:
         keys = sorted(total.buckets, key=lambda k: -total.buckets[k]['count'])
